@@ -94,7 +94,7 @@ func (l *vLoader) Get(p string) (io.Reader, error) {
 	case 5:
 		return io.MultiReader(strings.NewReader(s[:len(s)/2]), iotest.DataErrReader(strings.NewReader(s[len(s)/2:]))), nil
 	}
-	return strings.NewReader(s), nil
+	return readerOfKind(s, (len(l.gets)+len(s))%3), nil // partly consumed sized readers, section readers
 }
 
 // vSizedReader: a reader that knows its size up front and delivers its last chunk together with io.EOF.
@@ -549,7 +549,34 @@ func c11LazySequences(c *C) {
 	}
 	content := map[string]string{"a.tpl": "[A a.tpl]", "b.tpl": "[B]", "/other/a.tpl": "[OTHER-A]", "../a.tpl": "[ROOT-A]", "./a.tpl": "[A ./a.tpl]"}
 	pool := []string{"a.tpl", "b.tpl", "missing.tpl", "/other/a.tpl", "../a.tpl", "gone/x.tpl", "./a.tpl", "missing.tpl"}
-	for ex := 0; ex < 3; ex++ {
+	var deployed []string
+	for ex := 0; ex < 5; ex++ {
+		// between two executions of the compiled template the tree changes: a file that was missing is deployed, a file is
+		// removed, a second loader (AddLoader) starts serving a name nobody had: a name means what the loaders say NOW
+		if ex > 0 && r.Chance(50) {
+			loader.mu.Lock()
+			switch r.Intn(4) {
+			case 0:
+				loader.files["/dir/missing.tpl"] = "[DEPLOYED-LATER]"
+				content["missing.tpl"] = "[DEPLOYED-LATER]"
+				deployed = append(deployed, "before execution "+fmt.Sprint(ex)+": /dir/missing.tpl deployed")
+			case 1:
+				delete(loader.files, "/dir/b.tpl")
+				delete(content, "b.tpl")
+				deployed = append(deployed, "before execution "+fmt.Sprint(ex)+": /dir/b.tpl removed")
+			case 2:
+				loader.files["/dir/b.tpl"] = "[B-NEW-VERSION]"
+				content["b.tpl"] = "[B-NEW-VERSION]"
+				deployed = append(deployed, "before execution "+fmt.Sprint(ex)+": /dir/b.tpl replaced")
+			default:
+				if _, has := content["gone/x.tpl"]; !has {
+					set.AddLoader(newMemLoader(map[string]string{"/dir/gone/x.tpl": "[FROM-THE-ADDED-LOADER]"}))
+					content["gone/x.tpl"] = "[FROM-THE-ADDED-LOADER]"
+					deployed = append(deployed, "before execution "+fmt.Sprint(ex)+": AddLoader(loader serving /dir/gone/x.tpl)")
+				}
+			}
+			loader.mu.Unlock()
+		}
 		var names []string
 		for i := 1 + r.Intn(6); i > 0; i-- {
 			names = append(names, pool[r.Intn(len(pool))])
@@ -569,7 +596,7 @@ func c11LazySequences(c *C) {
 		loader.reset()
 		out, xerr := tpl.Execute(pongo2.Context{"names": names})
 		c.Eval(1)
-		d := D{"files": files, "names": names, "execution": ex, "output": q(out), "error": errStr(xerr)}
+		d := D{"files": files, "names": names, "execution": ex, "output": q(out), "error": errStr(xerr), "changes_of_the_tree": deployed}
 		if wantErr != "" {
 			if xerr == nil {
 				d["expected"] = "an error naming " + wantErr
@@ -586,7 +613,7 @@ func c11LazySequences(c *C) {
 		_, hits := loader.snapshotGets()
 		existing := 0
 		for _, n := range names {
-			if _, ok := content[n]; ok {
+			if _, ok := content[n]; ok && n != "gone/x.tpl" { // (gone/x.tpl is served by the loader added later, not by this one)
 				existing++
 			}
 		}
@@ -645,8 +672,50 @@ func c11ManyIncludes(c *C) {
 	c.Nontrivial(fmt.Sprintf("many:%s:%d", f.name, n))
 }
 
+// c11BigFiles: the file a reference names is obtained completely, whatever its size: targets just beyond 64 KiB,
+// 1 MiB, 4 MiB, 8 MiB and 16 MiB reached through plain ssi, ssi parsed, static and computed-name include and extends.
+func c11BigFiles(c *C) {
+	r := c.R
+	size := r.Pick2([]int{1<<16 + 1, 1<<20 + 1, 4<<20 + 1, 4<<20 + 4097, 8<<20 + 3, 16<<20 + 1})
+	unit := r.Pick([]string{"0123456789abcdef", "line of plain text\n", "é日本😀 ", "x"})
+	big := strings.Repeat(unit, size/len(unit)+1)[:size-3] + "END"
+	files := map[string]string{"/big.txt": big, "/base.tpl": "<{% block b %}{% endblock %}>" + big}
+	forms := []struct{ name, src, want string }{
+		{"plain ssi", `[{% ssi "/big.txt" %}]`, "[" + big + "]"},
+		{"ssi parsed", `[{% ssi "/big.txt" parsed %}]`, "[" + big + "]"},
+		{"static include", `[{% include "/big.txt" %}]`, "[" + big + "]"},
+		{"computed-name include", `[{% include nm %}]`, "[" + big + "]"},
+		{"extends", `{% extends "/base.tpl" %}{% block b %}x{% endblock %}`, "<x>" + big},
+		{"plain ssi twice", `{% ssi "/big.txt" %}|{% ssi "/big.txt" %}`, big + "|" + big},
+	}
+	f := forms[r.Intn(len(forms))]
+	files["/main.tpl"] = f.src
+	set, _ := newSet(files)
+	tpl, err := set.FromFile("/main.tpl")
+	var out string
+	if err == nil {
+		out, err = execSpread(tpl, pongo2.Context{"nm": "/big.txt"}, uint64(c.Idx))
+	}
+	c.Eval(1)
+	if err != nil || out != f.want {
+		first := 0
+		for first < len(out) && first < len(f.want) && out[first] == f.want[first] {
+			first++
+		}
+		c.Fail("composition-mismatch", D{"form": f.name, "main": f.src, "size_of_the_named_file": len(big), "output_len": len(out), "expected_len": len(f.want), "first_difference_at": first, "error": errStr(err),
+			"why": "the reference obtains exactly the file it names, all of it"})
+		return
+	}
+	c.Cover("big_file_via_" + f.name)
+	c.Nontrivial(fmt.Sprintf("big:%s:%d:%s", f.name, size, unit))
+}
+
 func c11Run(c *C) {
 	r := c.R
+	if c.Idx%1500 == 77 {
+		c11BigFiles(c)
+		return
+	}
 	if c.Idx%300 == 7 {
 		c11ManyIncludes(c)
 		return
